@@ -1,5 +1,7 @@
-"""C11 - see properties.jsonl; META is filled in below."""
-META = {"level": "proof", "trusted_base": [], "assumptions": [], "explanation": ""}
+"""C11 - claim and bounded driver; statement in properties.jsonl, design in DESIGN.md section 7."""
+from props.meta import META as _M
+
+META = _M["C11"]
 
 try:
     from props.C11_rac import rac, replay   # bounded run-time contract driver (stand-in + replay harness)
